@@ -73,6 +73,20 @@ check('C04', 'E2', 'model_checking',
       'history replayed on fresh real objects (traces_validated_against_impl = all).',
       'DESIGN.md 2/C04')
 
-_PENDING = {'C05': 'check not built yet in this round (planned: bounded exhaustive exploration, see DESIGN.md section 2)', 'C06': 'check not built yet in this round (planned: bounded exhaustive exploration, see DESIGN.md section 2)', 'C07': 'check not built yet in this round (planned: bounded exhaustive exploration, see DESIGN.md section 2)', 'C08': 'check not built yet in this round (planned: bounded exhaustive exploration, see DESIGN.md section 2)', 'C09': 'check not built yet in this round (planned: bounded exhaustive exploration, see DESIGN.md section 2)', 'C10': 'check not built yet in this round (planned: bounded exhaustive exploration, see DESIGN.md section 2)', 'C11': 'check not built yet in this round (planned: bounded exhaustive exploration, see DESIGN.md section 2)', 'C12': 'check not built yet in this round (planned: bounded exhaustive exploration, see DESIGN.md section 2)', 'C13': 'check not built yet in this round (planned: bounded exhaustive exploration, see DESIGN.md section 2)', 'C14': 'check not built yet in this round (planned: bounded exhaustive exploration, see DESIGN.md section 2)', 'C15': 'check not built yet in this round (planned: bounded exhaustive exploration, see DESIGN.md section 2)', 'C16': 'check not built yet in this round (planned: bounded exhaustive exploration, see DESIGN.md section 2)', 'C17': 'check not built yet in this round (planned: bounded exhaustive exploration, see DESIGN.md section 2)', 'C18': 'check not built yet in this round (planned: bounded exhaustive exploration, see DESIGN.md section 2)', 'C19': 'check not built yet in this round (planned: bounded exhaustive exploration, see DESIGN.md section 2)', 'C20': 'check not built yet in this round (planned: bounded exhaustive exploration, see DESIGN.md section 2)'}
+check('C05', 'E1', 'exploration',
+      'bounded exhaustive enumeration of macro signatures x conforming calls and of numeric literals x next tokens',
+      '(a) Every signature with an optional star and 1..2 (quick) / 1..3 (thorough) arguments over 38 (delimiter, type) kinds '
+      '(4..6 arguments over 4 kinds) is compiled by the real Macro.arguments and invoked with every combination of value '
+      'spellings (nested groups and brackets, a bracket hidden in braces, leading blanks), optional arguments present/absent and '
+      'star present/absent; bound values, None for absent optionals, argSource, the untouched tail and the balanced '
+      'ParameterCommand enable counter are checked. (b) Every literal of the integer / dimension / glue grammars (sign runs, '
+      'radix forms, character codes, registers, 9 absolute units, true, fil orders, register multiples) followed by each of five '
+      'next tokens is scanned by the real readInteger/readDimen/readGlue and compared with exact rational values and the '
+      'expected rest of the input.',
+      'Trusted: expected values written next to each spelling in vp/checks/c05.py; dimensions compared with exact rationals '
+      'within 1 sp; ex/em excluded (font dependent).',
+      'DESIGN.md 2/C05')
+
+_PENDING = {'C06': 'check not built yet in this round (planned: bounded exhaustive exploration, see DESIGN.md section 2)', 'C07': 'check not built yet in this round (planned: bounded exhaustive exploration, see DESIGN.md section 2)', 'C08': 'check not built yet in this round (planned: bounded exhaustive exploration, see DESIGN.md section 2)', 'C09': 'check not built yet in this round (planned: bounded exhaustive exploration, see DESIGN.md section 2)', 'C10': 'check not built yet in this round (planned: bounded exhaustive exploration, see DESIGN.md section 2)', 'C11': 'check not built yet in this round (planned: bounded exhaustive exploration, see DESIGN.md section 2)', 'C12': 'check not built yet in this round (planned: bounded exhaustive exploration, see DESIGN.md section 2)', 'C13': 'check not built yet in this round (planned: bounded exhaustive exploration, see DESIGN.md section 2)', 'C14': 'check not built yet in this round (planned: bounded exhaustive exploration, see DESIGN.md section 2)', 'C15': 'check not built yet in this round (planned: bounded exhaustive exploration, see DESIGN.md section 2)', 'C16': 'check not built yet in this round (planned: bounded exhaustive exploration, see DESIGN.md section 2)', 'C17': 'check not built yet in this round (planned: bounded exhaustive exploration, see DESIGN.md section 2)', 'C18': 'check not built yet in this round (planned: bounded exhaustive exploration, see DESIGN.md section 2)', 'C19': 'check not built yet in this round (planned: bounded exhaustive exploration, see DESIGN.md section 2)', 'C20': 'check not built yet in this round (planned: bounded exhaustive exploration, see DESIGN.md section 2)'}
 for _p, _why in _PENDING.items():
     NOT_APPLICABLE.append({'property_id': _p, 'reason': _why})
